@@ -1500,9 +1500,11 @@ where
                                 }
                                 ExtendedProtocolData::Bind { data, metadata } => {
                                     // This is using a prepared statement
-                                    if let Some(client_given_name) = metadata {
+                                    if let Some((client_given_name, parse, hash)) = metadata {
                                         self.ensure_prepared_statement_is_on_server(
                                             client_given_name,
+                                            parse,
+                                            hash,
                                             &pool,
                                             server,
                                             &address,
@@ -1514,9 +1516,11 @@ where
                                 }
                                 ExtendedProtocolData::Describe { data, metadata } => {
                                     // This is using a prepared statement
-                                    if let Some(client_given_name) = metadata {
+                                    if let Some((client_given_name, parse, hash)) = metadata {
                                         self.ensure_prepared_statement_is_on_server(
                                             client_given_name,
+                                            parse,
+                                            hash,
                                             &pool,
                                             server,
                                             &address,
@@ -1817,44 +1821,39 @@ where
         }
     }
 
-    /// Makes sure the the checked out server has the prepared statement and sends it to the server if it doesn't
+    /// Makes sure the the checked out server has the prepared statement and sends it to the server if it doesn't.
+    /// The statement is the one the client's name referred to when the Bind or Describe arrived.
     async fn ensure_prepared_statement_is_on_server(
         &mut self,
         client_name: String,
+        parse: Arc<Parse>,
+        hash: u64,
         pool: &ConnectionPool,
         server: &mut Server,
         address: &Address,
     ) -> Result<(), Error> {
-        match self.prepared_statements.get(&client_name) {
-            Some((parse, hash)) => {
-                debug!("Prepared statement `{}` found in cache", client_name);
-                // In this case we want to send the parse message to the server
-                // since pgcat is initiating the prepared statement on this specific server
-                match self
-                    .register_parse_to_server_cache(true, hash, parse, pool, server, address)
-                    .await
-                {
-                    Ok(_) => (),
-                    Err(err) => match err {
-                        Error::PreparedStatementError => {
-                            debug!("Removed {} from client cache", client_name);
-                            self.prepared_statements.remove(&client_name);
-                        }
-
-                        _ => {
-                            return Err(err);
-                        }
-                    },
+        // In this case we want to send the parse message to the server
+        // since pgcat is initiating the prepared statement on this specific server
+        match self
+            .register_parse_to_server_cache(true, &hash, &parse, pool, server, address)
+            .await
+        {
+            Ok(_) => (),
+            Err(err) => match err {
+                Error::PreparedStatementError => {
+                    // Forget the name, unless it has been prepared anew since.
+                    if matches!(self.prepared_statements.get(&client_name), Some((current, _)) if Arc::ptr_eq(current, &parse))
+                    {
+                        debug!("Removed {} from client cache", client_name);
+                        self.prepared_statements.remove(&client_name);
+                    }
                 }
-            }
 
-            None => {
-                return Err(Error::ClientError(format!(
-                    "prepared statement `{}` not found",
-                    client_name
-                )))
-            }
-        };
+                _ => {
+                    return Err(err);
+                }
+            },
+        }
 
         Ok(())
     }
@@ -1964,7 +1963,7 @@ where
         let client_given_name = Bind::get_name(&message)?;
 
         match self.prepared_statements.get(&client_given_name) {
-            Some((rewritten_parse, _)) => {
+            Some((rewritten_parse, hash)) => {
                 let message = Bind::rename(message, &rewritten_parse.name)?;
 
                 debug!(
@@ -1972,8 +1971,9 @@ where
                     client_given_name, rewritten_parse.name
                 );
 
+                let metadata = (client_given_name, rewritten_parse.clone(), *hash);
                 self.extended_protocol_data_buffer.push_back(
-                    ExtendedProtocolData::create_new_bind(message, Some(client_given_name)),
+                    ExtendedProtocolData::create_new_bind(message, Some(metadata)),
                 );
 
                 Ok(())
@@ -2025,7 +2025,7 @@ where
         let client_given_name = describe.statement_name.clone();
 
         match self.prepared_statements.get(&client_given_name) {
-            Some((rewritten_parse, _)) => {
+            Some((rewritten_parse, hash)) => {
                 let describe = describe.rename(&rewritten_parse.name);
 
                 debug!(
@@ -2033,11 +2033,9 @@ where
                     client_given_name, describe.statement_name
                 );
 
+                let metadata = (client_given_name, rewritten_parse.clone(), *hash);
                 self.extended_protocol_data_buffer.push_back(
-                    ExtendedProtocolData::create_new_describe(
-                        describe.try_into()?,
-                        Some(client_given_name),
-                    ),
+                    ExtendedProtocolData::create_new_describe(describe.try_into()?, Some(metadata)),
                 );
 
                 Ok(())
